@@ -26,6 +26,10 @@ enum Frame {
 struct Case {
     victim_v1: bool,
     frames: Vec<Frame>,
+    /// Some(n): while the victim's outbound path is stalled (for less than the relay's write time-out) the
+    /// attacker sends each frame n times (send queue capacity is 16), then the path recovers
+    #[serde(default)]
+    flood: Option<usize>,
 }
 
 fn frame_bytes(f: &Frame) -> Bytes {
@@ -91,8 +95,18 @@ fn run_case(case: &Case) -> (String, Option<String>) {
         let mut outcome = String::new();
         for (i, f) in case.frames.iter().enumerate() {
             let accepted = iroh_relay::verif::c04::client_to_relay_from_bytes(frame_bytes(f), &w.cache).is_ok();
-            w.send_raw(a, frame_bytes(f));
-            settle().await;
+            if let Some(n) = case.flood {
+                w.set_credits(b, Some(0));
+                for _ in 0..n {
+                    w.send_raw(a, frame_bytes(f));
+                }
+                settle().await;
+                w.set_credits(b, None);
+                settle().await;
+            } else {
+                w.send_raw(a, frame_bytes(f));
+                settle().await;
+            }
             let at_b: Vec<Obs> = w.drain(b);
             let got = at_b.iter().filter(|o| matches!(o, Obs::Datagrams { src: Some(0), .. })).count();
             outcome = format!(
@@ -185,7 +199,7 @@ fn main() {
     let mut cases: Vec<Case> = Vec::new();
     for v1 in [false, true] {
         for f in &shapes {
-            cases.push(Case { victim_v1: v1, frames: vec![f.clone()] });
+            cases.push(Case { victim_v1: v1, frames: vec![f.clone()], flood: None });
         }
     }
     // depth 2/3 over a reduced alphabet (one representative per class)
@@ -199,7 +213,13 @@ fn main() {
     let reps: Vec<Frame> = reps.into_iter().filter(|f| !matches!(f, Frame::Raw { typ, .. } if *typ > 6)).collect();
     for f1 in &reps {
         for f2 in &reps {
-            cases.push(Case { victim_v1: false, frames: vec![f1.clone(), f2.clone()] });
+            cases.push(Case { victim_v1: false, frames: vec![f1.clone(), f2.clone()], flood: None });
+        }
+    }
+    // queue-full back-pressure: flood a temporarily stalled victim with each class representative
+    for f in &reps {
+        for n in [15usize, 16, 17, 18, 40] {
+            cases.push(Case { victim_v1: false, frames: vec![f.clone()], flood: Some(n) });
         }
     }
     if ctx.thorough() {
@@ -207,7 +227,7 @@ fn main() {
         for f1 in &small {
             for f2 in &small {
                 for f3 in &small {
-                    cases.push(Case { victim_v1: true, frames: vec![f1.clone(), f2.clone(), f3.clone()] });
+                    cases.push(Case { victim_v1: true, frames: vec![f1.clone(), f2.clone(), f3.clone()], flood: None });
                 }
             }
         }
@@ -233,7 +253,7 @@ fn main() {
                     });
                     ctx.discrepancy(kind.as_deref().map(|k| format!("victim-harmed-by-{k}")).as_deref(), &format!("{p} [{class}]"), case);
                 } else {
-                    ctx.eval(&frame_class(case.frames.last().unwrap()), &outcome);
+                    ctx.eval(&format!("{}{}", frame_class(case.frames.last().unwrap()), case.flood.map(|n| format!(" x{n} while stalled")).unwrap_or_default()), &outcome);
                 }
             }
         }
